@@ -81,7 +81,7 @@ func validFoldCommands(maxLen int) []string {
 
 // c15WordAlphabet: whole words as symbols - the namespace and command names of the UCAN specifications, a
 // segment that is a combining mark or starts with one, a zero-width joiner, a non-breaking space.
-var c15WordAlphabet = []string{"/", "ucan", "revoke", "x", "\u0301", "msg", "\u200d", "\u00a0", "\ufeff", "*", "\ufffd"}
+var c15WordAlphabet = []string{"/", "ucan", "revoke", "x", "\u0301", "msg", "\u200d", "\u00a0", "\ufeff", "*", "\ufffd", "\u2163", "\u24b6", "\u2173", "\u24d0"}
 
 func validWordCommands(maxLen int) []string {
 	if v, ok := validCmdMemo.Load(1000 + maxLen); ok {
@@ -190,7 +190,7 @@ func C15() *engine.Check {
 		}
 	}
 	parse := mkParse("parse", "{/,a,b,A,é,É}", c15Alphabet, 6, 8)
-	parseWords := mkParse("parse-well-known-names-and-marks", "the words {/, ucan, revoke, x, msg} and the characters {U+0301 combining acute, U+200D zero-width joiner, U+00A0 no-break space, U+FEFF byte order mark, * (a star is an ordinary segment character, not a wildcard), U+FFFD (the replacement character, well-formed text like any other)} as symbols", c15WordAlphabet, 5, 6)
+	parseWords := mkParse("parse-well-known-names-and-marks", "the words {/, ucan, revoke, x, msg} and the characters {U+0301 combining acute, U+200D zero-width joiner, U+00A0 no-break space, U+FEFF byte order mark, * (a star is an ordinary segment character, not a wildcard), U+FFFD (the replacement character, well-formed text like any other), U+2163 / U+24B6 (ROMAN NUMERAL FOUR, CIRCLED A: upper case, though not letters) and their lower-case partners U+2173 / U+24D0} as symbols", c15WordAlphabet, 5, 6)
 	parseFold := mkParse("parse-case-fold-classes", "{/, s, ſ (long s), σ, ς (final sigma), ǆ, ǅ (title case), K (Kelvin sign)}", c15FoldAlphabet, 5, 6)
 
 	mkPairs := func(name, alphaDesc string, cmdsOf func(n int) []string, q, t int) *engine.Sub {
